@@ -5,8 +5,12 @@
    and refuted without that hypothesis (C21_sub_unaligned_refuted: the witness is a known finding).
      zero_extend              when the interval does not wrap around (C21_zext), refuted when it does (C21_zext_wrapping_refuted:
                               a known finding)
+     ULT, ULE, UGT, UGE       a TrueResult / FalseResult holds for every pair of members (C21_ult .. C21_uge), and the
+                              comparison is answered whenever a wrapping operand has a positive stride (C21_ucmp_total)
+     SLT, SLE, SGT, SGE       the same for the signed reading of the members (C21_slt .. C21_sge), with _signed_bounds as
+                              repaired (split at the south pole, then at the north pole, skipping pieces without members)
    The other transfer functions are not modelled; they are covered by the sweep of the real code only. *)
-Require Import CV.Model.PyPrelude CV.Model.SI CV.Proofs.SISound CV.Proofs.SIZext.
+Require Import CV.Model.PyPrelude CV.Model.SI CV.Proofs.SISound CV.Proofs.SIZext CV.Model.SICmp CV.Proofs.SICmpSound.
 From Coq Require Import ZArith List.
 Open Scope Z_scope.
 
@@ -48,3 +52,59 @@ Theorem C21_zext_wrapping_refuted :
   let a := mkSI 2 3 1 0 false in wf a /\ gamma a 0 /\ ~ In 0 (members (si_zext a 3)).
 Proof. exact zext_wrapping_refuted. Qed.
 Print Assumptions C21_zext_wrapping_refuted.
+
+Theorem C21_ult : forall a b r x y, wf a -> wf b -> si_ult a b = Ok r -> gamma a x -> gamma b y ->
+  (r = TT -> x < y) /\ (r = TF -> ~ x < y).
+Proof. exact ult_sound. Qed.
+Print Assumptions C21_ult.
+
+Theorem C21_ule : forall a b r x y, wf a -> wf b -> si_ule a b = Ok r -> gamma a x -> gamma b y ->
+  (r = TT -> x <= y) /\ (r = TF -> ~ x <= y).
+Proof. exact ule_sound. Qed.
+Print Assumptions C21_ule.
+
+Theorem C21_ugt : forall a b r x y, wf a -> wf b -> si_ugt a b = Ok r -> gamma a x -> gamma b y ->
+  (r = TT -> x > y) /\ (r = TF -> ~ x > y).
+Proof. exact ugt_sound. Qed.
+Print Assumptions C21_ugt.
+
+Theorem C21_uge : forall a b r x y, wf a -> wf b -> si_uge a b = Ok r -> gamma a x -> gamma b y ->
+  (r = TT -> x >= y) /\ (r = TF -> ~ x >= y).
+Proof. exact uge_sound. Qed.
+Print Assumptions C21_uge.
+
+Theorem C21_ucmp_total : forall t f a b, wf a -> wf b -> bits a = bits b ->
+  (lb a <= ub a \/ 0 < stride a) -> (lb b <= ub b \/ 0 < stride b) -> exists r, cmp_with t f a b = Ok r.
+Proof. exact cmp_total. Qed.
+Print Assumptions C21_ucmp_total.
+
+Theorem C21_slt : forall a b r x y, wf a -> wf b -> si_slt a b = Ok r -> gamma a x -> gamma b y ->
+  (r = TT -> sgn (bits a) x < sgn (bits a) y) /\ (r = TF -> ~ sgn (bits a) x < sgn (bits a) y).
+Proof. exact slt_sound. Qed.
+Print Assumptions C21_slt.
+
+Theorem C21_sle : forall a b r x y, wf a -> wf b -> si_sle a b = Ok r -> gamma a x -> gamma b y ->
+  (r = TT -> sgn (bits a) x <= sgn (bits a) y) /\ (r = TF -> ~ sgn (bits a) x <= sgn (bits a) y).
+Proof. exact sle_sound. Qed.
+Print Assumptions C21_sle.
+
+Theorem C21_sgt : forall a b r x y, wf a -> wf b -> si_sgt a b = Ok r -> gamma a x -> gamma b y ->
+  (r = TT -> sgn (bits a) x > sgn (bits a) y) /\ (r = TF -> ~ sgn (bits a) x > sgn (bits a) y).
+Proof. exact sgt_sound. Qed.
+Print Assumptions C21_sgt.
+
+Theorem C21_sge : forall a b r x y, wf a -> wf b -> si_sge a b = Ok r -> gamma a x -> gamma b y ->
+  (r = TT -> sgn (bits a) x >= sgn (bits a) y) /\ (r = TF -> ~ sgn (bits a) x >= sgn (bits a) y).
+Proof. exact sge_sound. Qed.
+Print Assumptions C21_sge.
+
+(* every member's signed reading is between one pair of _signed_bounds (what eval / min / max with signed=True read) *)
+Theorem C21_signed_bounds : forall a bs x, wf a -> signed_bounds a = Ok bs -> gamma a x ->
+  exists p, In p bs /\ fst p <= sgn (bits a) x <= snd p.
+Proof. exact signed_cover. Qed.
+Print Assumptions C21_signed_bounds.
+
+Theorem C21_unsigned_bounds : forall a bs x, wf a -> unsigned_bounds a = Ok bs -> gamma a x ->
+  exists p, In p bs /\ fst p <= x <= snd p.
+Proof. exact bounds_cover. Qed.
+Print Assumptions C21_unsigned_bounds.
